@@ -24,7 +24,7 @@
 From Coq Require Import List NArith Bool Arith.
 From Atlas Require Import Base.Bytes Base.Stutter Exec.ExecModel Exec.ExecProofs Exec.StepProofs
   Exec.PendingModel Exec.PendingProofs Exec.RunModel Exec.TxModel Exec.TxProofs Exec.RunProofs
-  Exec.ReuseModel Exec.ReuseProofs Exec.StoreModel Exec.StoreTxModel Exec.StoreTxProofs Exec.StoreTxDirProofs Exec.StoreTxAllProofs Exec.StoreTxCompleteProofs Exec.StoreTxOnceProofs.
+  Exec.ReuseModel Exec.ReuseProofs Exec.StoreModel Exec.StoreTxModel Exec.StoreTxProofs Exec.StoreTxDirProofs Exec.StoreTxAllProofs Exec.StoreTxCompleteProofs Exec.StoreTxOnceProofs Exec.StoreTxCompleteAllProofs.
 Import ListNotations.
 
 (** The first failing file ends the run: nothing of the later files is touched. *)
@@ -225,8 +225,8 @@ Print Assumptions C09_resume_store_any_mode.
 
 (** 3b/5-store. Completion over the store: after ANY such history (any
     --tx-mode, count and fault stream per run; directives), one more run without
-    faults and without a count under --tx-mode none | file whose directives are
-    valid for that mode completes the migration: the database's journal is the
+    faults and without a count under any --tx-mode whose directives are valid
+    for that mode (under --tx-mode all: no directive) completes the migration: the database's journal is the
     WHOLE plan (repeats bounded by the failed upserts directly after a statement),
     every file's stored revision has Applied = Total = its statement count, and
     Pending has nothing to do. *)
@@ -235,7 +235,7 @@ Theorem C09_complete_marks_done_store :
   (forall a b, heq a b = true <-> a = b) ->
   forall tfull : list tfile, sorted_files (map tf_file tfull) ->
   forall (rs : list m_run) (g : mode), Forall (mrun_any_on tfull) rs ->
-  g <> TxAll -> (forall tf, In tf tfull -> mode_for g tf <> None) ->
+  (forall tf, In tf tfull -> mode_for g tf <> None) ->
   let all := from_last_ckpt (map tf_file tfull) in
   let outs := m_history hash heq HS (rs ++ [mkMRun g 0 tfull []]) (mkSdb [] []) in
   let Dn := m_final hash outs (mkSdb [] []) in
@@ -244,7 +244,7 @@ Theorem C09_complete_marks_done_store :
   (forall f, In f all -> exists r, tbl_get (s_tbl Dn) (f_version f) = Some r /\
                                    r_applied r = length (f_stmts f) /\ r_total r = length (f_stmts f)) /\
   (forall c', cfg_ok c' -> pending c' (map tf_file tfull) (read_revisions hash (s_tbl Dn)) = (PNoPending, None)).
-Proof. exact complete_store_full. Qed.
+Proof. exact complete_store_any_full. Qed.
 Print Assumptions C09_complete_marks_done_store.
 
 (** 4-store. Exactly once over the store: if no revisions upsert fails in any
@@ -256,11 +256,11 @@ Theorem C09_exactly_once_store :
   (forall a b, heq a b = true <-> a = b) ->
   forall tfull : list tfile, sorted_files (map tf_file tfull) ->
   forall (rs : list m_run) (g : mode), Forall (mrun_any_on tfull) rs ->
-  g <> TxAll -> (forall tf, In tf tfull -> mode_for g tf <> None) ->
+  (forall tf, In tf tfull -> mode_for g tf <> None) ->
   let outs := m_history hash heq HS (rs ++ [mkMRun g 0 tfull []]) (mkSdb [] []) in
   (forall out r, In out outs -> ~ In (EWrite r false) (snd out)) ->
   s_journal (m_final hash outs (mkSdb [] [])) = plan (from_last_ckpt (map tf_file tfull)).
-Proof. exact exactly_once_store_full. Qed.
+Proof. exact exactly_once_store_any_full. Qed.
 Print Assumptions C09_exactly_once_store.
 Print Assumptions C09_stop_on_fault.
 Print Assumptions C09_never_overclaims.
